@@ -450,7 +450,7 @@ func c16DlExec(c c16DlCase, tol func(*kit.Viol) bool) (o kit.Outcome) {
 				return o
 			}
 			if rep.code != 200 || rep.url() == "" {
-				o.Viol = kit.V("gate:refused-valid-request", "%s: a valid upload was answered %d %s", what, rep.code, c16Short(rep.body))
+				o.Viol = kit.V("gate:valid-upload-refused", "%s: a valid upload was answered %d %s", what, rep.code, c16Short(rep.body))
 				return o
 			}
 			f.url = rep.url()
